@@ -291,8 +291,9 @@ Proof.
     - match goal with E : Ok _ = Ok _ |- _ => inversion E; apply ex_nil end.
     - match goal with E : bind _ _ = Ok _ |- _ => inv_ok E end. apply ex_T, ex_tjoin.
       eapply rmapM_ok; [|eassumption]. intros x b Hx. eapply sitem_toks_ex; [|exact Hx]; assumption. }
-  assert (Hbody : forall b, ex v b -> ex v (if wal then falias RAlias og0 b ali (q (kc kin)) (aq (kc kin)) (askw (kc kin)) else b)).
-  { intros b Hb. destruct wal; [|exact Hb]. apply (ex_alias v og0 (kc kin)); assumption. }
+  assert (Hbody : forall b, ex v b -> ex v (if wal then falias RSAlias og0 b ali (q (kc kin)) (aq (kc kin)) (askw (kc kin)) else b)).
+  { intros b Hb. destruct wal; [|exact Hb]. destruct Hk as [Hq [_ [Ha Hkw]]].
+    apply ex_falias; [intros ?; cbn [exact_tok snd]; rewrite Ha, Hq; reflexivity|exact Hkw|exact Hb]. }
   apply Hbody. apply ex_vparen. auto 8 with exdb.
 Qed.
 
